@@ -8,7 +8,9 @@ rows = []
 for f in sorted(glob.glob("/verif/seeded/*/meta.json")):
     m = json.load(open(f))
     sid = f.split("/")[-2]
-    checks = ", ".join(f"{k}: {'caught' if v.get('caught') else 'MISSED'}" for k, v in m.get("checks", {}).items())
+    own = sid.split("-")[0]
+    checks = ", ".join(f"{k}: {'caught' if v.get('caught') else ('MISSED' if k == own else 'not caught (a neighbouring check, run for information)')}"
+                       for k, v in m.get("checks", {}).items())
     note = m.get("first_run", "")
     summary = re.sub(r"\s+", " ", str(m.get("summary", "")))[:230].replace("|", "\\|")
     needs = re.sub(r"\s+", " ", str(m.get("needs", "")))[:200].replace("|", "\\|")
